@@ -29,6 +29,7 @@ type ReadCase struct {
 	Plan    lsx.ReadPlan `json:"plan"`
 	Mut     string       `json:"mutation_class"`
 	Trusted bool         `json:"trusted,omitempty"`
+	Warm    string       `json:"after_clean_load_with,omitempty"` // a load function that first loads the intact block through the same LinkSystem
 }
 
 func codecName(c uint64) string {
@@ -106,6 +107,12 @@ func CheckRead(c ReadCase) (fs []core.Finding, outcome string) {
 	st.M[pr.link.Binary()] = pr.block
 	ls := lsx.NewLinkSystem(st)
 	ls.TrustedStorage = c.Trusted
+	if c.Warm != "" {
+		// history: the same LinkSystem has already loaded this link, from the intact block, successfully
+		if res := doLoad(ls, c.Warm, pr.link); res.err != nil || res.pan != "" {
+			return []core.Finding{core.F("load/"+c.Warm+"/"+codecName(c.Proto.Codec)+"/clean-load-fails", "value %s proto %s: %v %s", c.V, c.Proto, res.err, res.pan)}, "bad"
+		}
+	}
 	plan := c.Plan
 	st.RP = &plan
 	served := pr.block
@@ -341,7 +348,7 @@ func blocks(quick bool) []blockSpec {
 
 func Main(r *core.Run) {
 	bs := blocks(r.Quick())
-	r.Rule("for every block (codec × value × hash function incl. identity and 1-byte truncated digests) and each of Load/LoadRaw/LoadPlusRaw/Fill: every single-bit flip at every offset, every truncation, 10 extensions, substitution by every other block of the codec, a read error at every offset, every chunking (all compositions ≤8 bytes; all 1-/2-cut chunkings above), zero-length reads, data+EOF, open error; store side: writer failing (error / short write) at every Write call, accessor failure at every accessor call of the encoder, opener error, commit error. Non-trivial = served bytes differ from the stored block, or a fault was injected; distinct by (block, fn, plan).")
+	r.Rule("for every block (codec × value × hash function incl. identity and 1-byte truncated digests) and each of Load/LoadRaw/LoadPlusRaw/Fill: every single-bit flip at every offset, every truncation, 10 extensions, substitution by every other block of the codec, a read error at every offset, every chunking (all compositions ≤8 bytes; all 1-/2-cut chunkings above), zero-length reads, data+EOF, open error; every content-changing fault once more after the same LinkSystem loaded the intact block (history of two loads); store side: writer failing (error / short write) at every Write call, accessor failure at every accessor call of the encoder, opener error, commit error. Non-trivial = served bytes differ from the stored block, or a fault was injected; distinct by (block, fn, plan).")
 	r.Assume("oracle: a non-error return implies the served block hashes to the link (hash recomputed by the harness: crypto/sha256, sha512, identity by hand; go-multihash for sha3/blake3)")
 	type job struct {
 		b      blockSpec
@@ -368,6 +375,23 @@ func Main(r *core.Run) {
 					r.NontrivialN(1)
 				}
 				r.Report("read", c, fs)
+				if plan.Serve != nil {
+					// the same fault after the link was loaded cleanly once through this LinkSystem
+					for _, warm := range []string{fn, "Load"} {
+						if warm == "Load" && fn == "Load" {
+							continue
+						}
+						cw := c
+						cw.Warm = warm
+						fs, outcome := CheckRead(cw)
+						lc.Transitions += 2
+						lc.Evals++
+						lc.Traces++
+						r.Outcome(fn + "/after-clean-load/" + outcome)
+						r.NontrivialN(1)
+						r.Report("read", cw, fs)
+					}
+				}
 				if pi%7 == 0 && plan.Serve != nil {
 					// vacuity guard: same fault with TrustedStorage
 					c.Trusted = true
